@@ -94,7 +94,7 @@ def field_menu(spec, field, level):
         return ["p", "q"] if level == "core" else ["p", "q", ""]
     if field == "v":
         if level == "core":
-            return [(0.0, 1.0), (NAN, 1.0), (1.0, 0.0)]
+            return [(0.0, 1.0), (NAN, 1.0), (1.0, 0.0), (INF, -INF)]
         return [(0.0, 1.0), (1.0, 0.0), (NAN, 1.0), (INF, -INF)]
     raise ValueError(field)
 
